@@ -287,6 +287,42 @@ def k_rt_gate_format(ctx, envs):
                 ctx.validated()
 
 
+def precompiled_by_plain_environment(ctx):
+    """templates precompiled with Environment.compile_templates by a NON-sandboxed environment and served to a
+    SandboxedEnvironment through ModuleLoader: same class as the shared bytecode cache (the sandbox runs code that was
+    not generated in sandboxed mode); recorded under its own signature"""
+    import shutil
+    import tempfile
+    from jinja2 import DictLoader, Environment, ModuleLoader
+    from jinja2.exceptions import SecurityError
+    from jinja2.sandbox import SandboxedEnvironment
+    for mode in ("sync", "async"):
+        d = tempfile.mkdtemp(prefix="c18_mod_", dir=lib.BUILD)
+        try:
+            rec = Rec()
+            f = rec.mark(rec.function("f"), unsafe=True)
+            Environment(loader=DictLoader({"t": "{{ f() }}{% for x in [1] %}{{ f(x) }}{% endfor %}"}),
+                        enable_async=(mode == "async")).compile_templates(d, zip=None, log_function=lambda *_: None)
+            env = SandboxedEnvironment(loader=ModuleLoader(d), enable_async=(mode == "async"))
+            try:
+                env.get_template("t").render(f=f)
+                outcome = "ok"
+            except SecurityError:
+                outcome = "SecurityError"
+            except Exception as e:  # noqa: BLE001
+                outcome = "exc:" + type(e).__name__
+            case = {"kind": "precompiled-by-plain-environment", "mode": mode, "outcome": outcome, "ran": list(rec.ran)}
+            ctx.case(sample=case if mode == "sync" else None, key=("precompiled", mode))
+            ctx.count("precompiled_by_plain_environment")
+            if rec.ran:
+                shared.reject_once(ctx, case, "a SandboxedEnvironment serving templates that a plain Environment precompiled "
+                                              "(ModuleLoader) ran an unsafe callable", "C18:precompiled-by-plain-environment")
+            else:
+                ctx.validated()
+        finally:
+            shutil.rmtree(d, ignore_errors=True)
+
+
 def history_stream(ctx):
     """the verdict is taken at EVERY call (the model's gate is a function of the predicate in force and the object,
     evaluated per call): a callable that was allowed before and is rejected now must not run — the marker was set
@@ -641,6 +677,7 @@ def run(ctx):
     k_rt_gate(ctx, envs)
     k_rt_gate_format(ctx, envs)
     shared_bytecode_cache(ctx)
+    precompiled_by_plain_environment(ctx)
     history_stream(ctx)
     shared.k_gen(ctx, jinja2, ctx.size(1500, 15000), ctx.size(250, 2500), "C18")
     for idx, ((c, _), shape, pol, mode) in enumerate(itertools.product(callables_under_test(), SHAPES, ("default", "overridden"), ("sync", "async"))):
